@@ -189,6 +189,16 @@ func (s *LinearState) Add(ctx *Context, id string, x Map) (string, error) {
 	// orders, and storage would keep a different fact than memory.
 	s.slock(ctx, false)
 
+	// A stored fact that has expired is gone, and so is what depends
+	// on it (as in IndexedState.add): purge it before it is replaced,
+	// or its dependents would pass to the new fact.
+	if old, have := s.Facts[id]; have {
+		if _, err = s.expire(ctx, id, old.M, 0); err != nil {
+			s.sunlock(ctx, false)
+			return id, err
+		}
+	}
+
 	// Try the hook first: if it refuses the fact, nothing has been
 	// written yet.
 	if s.addHook != nil {
